@@ -3,6 +3,7 @@ import XzVerif.Proofs.Segment
 import XzVerif.Proofs.Prefix
 import XzVerif.Proofs.LazyDec2
 import XzVerif.Proofs.Fuel
+import XzVerif.Proofs.LazyXz
 /-
   C05 — A truncated stream is never mistaken for a complete one (.xz, LZMA2, .lzma).
 
@@ -159,5 +160,18 @@ theorem C05_lazy_lzma2_prefix_never_clean (cfgCap : Nat) (hcap : 4096 ≤ effCap
     rw [batch_eq, hcut, hfull]; exact hpo
   exact ⟨fun he => hrej (heofc he).1, Nat.le_trans hd1 hp1, hd2.trans (extract_of_prefix _ _ _ hp2 hd1)⟩
 
+
+open LazyDec LazyXz in
+/-- No proper prefix of a well-formed single .xz stream is ever reported as a clean end by the lazy xz reader model
+    (multi-stream mode or SingleStream), under ANY schedule of buffer lengths. -/
+theorem C05_lazy_xz_prefix_never_clean (cfgCap : Nat) (single : Bool) (s : Xz.Stream) (hok : Xz.StreamOk false s)
+    (hcap : Xz.CapOk false cfgCap s) (hpad : s.padAfter = 0) (k : Nat) (hk : k < (Xz.emitStream s).size) (x : X)
+    (h : LazyXz.newReader cfgCap single ((Xz.emitStream s).extract 0 k) = .ok x) (lens : List Nat) :
+    LazyXz.lastStat (LazyXz.readSeq x lens) ≠ .eof := by
+  intro he
+  have hf : (LazyXz.batch cfgCap single ((Xz.emitStream s).extract 0 k)).status ≠ .err "fuel exhausted" :=
+    Fuel.xz_read_fuel _ _ _ _
+  have hc := (LazyXz.eof_complete cfgCap single _ x h lens hf he).1
+  exact Xz.xz_prefix_rejected false cfgCap single s hok hcap hpad k hk hc
 
 end Props.C05
